@@ -308,7 +308,11 @@ def run(ctx):
     try:
         ic8 = ctx.anchor_fn("R08.6", "watchexec_cli::config::interpret_command_args")
         so8 = [n for n in thir.find(thir.root(ic8), "adt") if n.get("adt", "").endswith("SpawnOptions")]
-        sof8 = {k: pathx.desc(v) for k, v in so8[0]["f"]} if len(so8) == 1 else {}
+        pathx.SUBST = pathx.let_substitutions(thir.root(ic8))
+        try:
+            sof8 = {k: pathx.desc(v) for k, v in so8[0]["f"]} if len(so8) == 1 else {}
+        finally:
+            pathx.SUBST = {}
         ctx.require(sof8 == {"grouped": "PartialEq::eq(args.command.wrap_process, Group)", "session": "PartialEq::eq(args.command.wrap_process, Session)"}, "R08.6", "cli-wrap-mode",
                     "the CLI puts the command in its own process group (default) or session exactly as --wrap-process says, in shell and no-shell mode alike", ic8.loc(ic8.line), detail=str(sof8),
                     fail="the CLI's group/session options depend on more than --wrap-process (%s): stop signals and the final kill reach only the program itself and its children survive the shutdown" % sof8)
